@@ -16,6 +16,7 @@ for m in re.finditer(r'^\s*(PASS|FAIL|SIGABRT|SIGSEGV|TIMEOUT|LEAK|FLAKY[^\[]*)\
     st, binid, name = m.group(1), m.group(2), m.group(3)
     # binid like "turdb" or "turdb::integration_sql"
     full = (binid + '::' + name) if '::' in binid else ('turdb::' + name if binid == 'turdb' else binid + '::' + name)
+    if st == 'LEAK': st = 'PASS'  # passed, but nextest saw the process linger (load)
     if st == 'PASS' or full not in status:
         status[full] = st
 missing = [t for t in stable if status.get(t) != 'PASS']
